@@ -292,6 +292,34 @@ impl TryFromJson for Leaf {
 	}
 }
 
+/// Uniform rendering of the error types of the built-in conversions.
+struct DebugMapped<'a, T>(&'a T);
+
+trait MappedErr {
+	fn describe(&self) -> String;
+}
+
+impl MappedErr for Mapped<Unexpected> {
+	fn describe(&self) -> String {
+		format!("offset={} found={:?} expected={}", self.offset, self.value.found, self.value.expected.as_disjunction())
+	}
+}
+
+impl<T> MappedErr for Mapped<json_syntax::TryIntoNumberError<T>> {
+	fn describe(&self) -> String {
+		match &self.value {
+			json_syntax::TryIntoNumberError::Unexpected(u) => format!("offset={} found={:?} expected={}", self.offset, u.found, u.expected.as_disjunction()),
+			json_syntax::TryIntoNumberError::OutOfBounds(_) => format!("offset={} out-of-bounds", self.offset),
+		}
+	}
+}
+
+impl<'a, T: MappedErr> std::fmt::Debug for DebugMapped<'a, T> {
+	fn fmt(&self, f: &mut std::fmt::Formatter) -> std::fmt::Result {
+		f.write_str(&self.0.describe())
+	}
+}
+
 /// Shape of a conforming document.
 #[derive(Clone, Debug)]
 enum Shape {
@@ -629,6 +657,63 @@ pub fn run(cfg: &Config) -> i32 {
 		rep
 	});
 	total.merge(rep);
+
+	// built-in scalar conversions: a value of every kind offered to every built-in target type at several offsets
+	{
+		let mut rep = Report::new();
+		let (vals, cm) = {
+			let (v, cm) = Value::parse_str("[null,true,7,\"s\",[],{},300,-1,1.5,70000,5000000000]").unwrap();
+			(v.into_array().unwrap(), cm)
+		};
+		macro_rules! conv {
+			($t:ty, $expected:expr, $name:expr, $accepts:expr) => {{
+				for (vi, v) in vals.iter().enumerate() {
+					for off in [0usize, 3, 999] {
+						rep.evaluations += 1;
+						rep.distinct_by_construction(1);
+						let r = guard(|| <$t as TryFromJson>::try_from_json_at(v, &cm, off).map(|_| ()).map_err(|e| format!("{:?}", DebugMapped(&e))));
+						let accepts: fn(&Value) -> bool = $accepts;
+						let ok = match &r {
+							Ok(Ok(())) => accepts(v),
+							Ok(Err(d)) => !accepts(v) && d.starts_with(&format!("offset={} ", off)) && (d.contains("out-of-bounds") || d.contains(&format!("found={:?}", v.kind()))),
+							Err(_) => false,
+						};
+						if !ok {
+							rep.violation(
+								concat!("C11:builtin-conversion:", $name),
+								format!("{}::try_from_json_at(value #{} = {}, offset {}) gives {:?}", $name, vi, v, off, r),
+								json!({"sub": "builtin", "type": $name}),
+							);
+						}
+						let _ = $expected;
+					}
+				}
+			}};
+		}
+		fn is_num_in<T: std::str::FromStr>(v: &Value) -> bool {
+			v.as_number().map(|n| n.as_str().parse::<T>().is_ok()).unwrap_or(false)
+		}
+		conv!((), "null", "()", |v| v.is_null());
+		conv!(bool, "boolean", "bool", |v| v.is_boolean());
+		conv!(String, "string", "String", |v| v.is_string());
+		conv!(u8, "number", "u8", |v| is_num_in::<u8>(v));
+		conv!(u16, "number", "u16", |v| is_num_in::<u16>(v));
+		conv!(u32, "number", "u32", |v| is_num_in::<u32>(v));
+		conv!(u64, "number", "u64", |v| is_num_in::<u64>(v));
+		conv!(usize, "number", "usize", |v| is_num_in::<usize>(v));
+		conv!(i8, "number", "i8", |v| is_num_in::<i8>(v));
+		conv!(i16, "number", "i16", |v| is_num_in::<i16>(v));
+		conv!(i32, "number", "i32", |v| is_num_in::<i32>(v));
+		conv!(i64, "number", "i64", |v| is_num_in::<i64>(v));
+		conv!(isize, "number", "isize", |v| is_num_in::<isize>(v));
+		conv!(f32, "number", "f32", |v| is_num_in::<f32>(v));
+		conv!(f64, "number", "f64", |v| is_num_in::<f64>(v));
+		conv!(Option<bool>, "boolean or null", "Option<bool>", |v| v.is_boolean() || v.is_null());
+		conv!(Box<bool>, "boolean", "Box<bool>", |v| v.is_boolean());
+		conv!(Option<Box<String>>, "string or null", "Option<Box<String>>", |v| v.is_string() || v.is_null());
+		rep.count("family:builtin-scalar-conversions", rep.evaluations);
+		total.merge(rep);
+	}
 
 	conclude(
 		cfg,
